@@ -7,7 +7,6 @@ Supported subset (what the leaf functions of api.py's row-group filter use):
   def f(a, b=None, ...):      positional parameters, defaults must be None/constants
   docstring, pass
   x = <expr>                  single Name target
-  a, b = <e1>, <e2>           tuple of distinct names from a tuple display of the same length
   if / elif / else            (branches may return or fall through; variables assigned in a
                                branch must already be bound before the `if`)
   return <expr>
@@ -214,9 +213,8 @@ class Tr:
         for s in stmts:
             if isinstance(s, ast.Assign):
                 for t in s.targets:
-                    for n in ([t] if isinstance(t, ast.Name) else (t.elts if isinstance(t, ast.Tuple) else [])):
-                        if isinstance(n, ast.Name) and n.id not in out:
-                            out.append(n.id)
+                    if isinstance(t, ast.Name) and t.id not in out:
+                        out.append(t.id)
             elif isinstance(s, ast.If):
                 for x in Tr.assigned(s.body) + Tr.assigned(s.orelse):
                     if x not in out:
@@ -237,24 +235,6 @@ class Tr:
             if s.value is None:
                 return "(Ok PNone)"
             return self.expr(s.value)
-        if isinstance(s, ast.Assign) and len(s.targets) == 1 and isinstance(s.targets[0], ast.Tuple):
-            # a, b = e1, e2 : the right-hand sides are evaluated left to right, then bound
-            tg, val = s.targets[0], s.value
-            if not (isinstance(val, ast.Tuple) and len(val.elts) == len(tg.elts) and all(isinstance(n, ast.Name) for n in tg.elts)
-                    and len({n.id for n in tg.elts}) == len(tg.elts)):
-                self.bad(s, "tuple assignment that is not `a, b = e1, e2` over distinct names")
-            rhs = [self.expr(e) for e in val.elts]
-            tmps = [self.fresh("t") for _ in rhs]
-            saved = set(self.env)
-            for n in tg.elts:
-                self.env.add(n.id)
-            body = self.block(rest, k, ind)
-            self.env = saved | {n.id for n in tg.elts}
-            for n, t in reversed(list(zip(tg.elts, tmps))):
-                body = "(bind (Ok %s) (fun %s =>\n%s%s))" % (t, self.ident(n.id), pad, body)
-            for term, t in reversed(list(zip(rhs, tmps))):
-                body = "(bind %s (fun %s =>\n%s%s))" % (term, t, pad, body)
-            return body
         if isinstance(s, ast.Assign):
             if len(s.targets) != 1 or not isinstance(s.targets[0], ast.Name):
                 self.bad(s, "assignment target")
